@@ -43,6 +43,12 @@ CHECKS = {
  "C14": ("crash monitor: hostile generated streams against the reference server in worker processes, panic-recording Handler wrapper, parent-side death localisation, control connections before/after; thorough adds -race/checkptr",
          "Random bytes, mutated packets, every body in every handler state, truncated/oversize packets, odd-user recipes and proxy junk are sent over 1-64 connections under rich and odd configurations; any recorded or process-level panic and any wrong control answer is a violation.",
          "streams bounded to 64 KiB; SPAN/DNS/syslog components are outside the reference wiring", "3/C14"),
+ "C12": ("event-log checker over accounting sink records and reply writes sharing one logical clock (exactly-once, order, byte-for-byte fidelity via unique task ids)",
+         "Accounting requests with hostile characters, every flag octet and 0..255 arguments are sent on up to 16 concurrent connections to the reference server; for every SUCCESS reply exactly one earlier sink record with the request's task id must decode to exactly the request; listed ERROR cases must be answered ERROR. Half of the batches render through a real log.Logger.",
+         "record format = JSON of the decoded request as the reference accounter emits it; syslog accounter not exercised (needs a syslog socket)", "3/C12"),
+ "C18": ("taint-token runtime monitor over an injected recording logger plus the stock logger's debug output",
+         "Every login carries a unique random password token and the scope a unique secret token; all logger calls (messages, Record maps minus caller-obscured keys, retained context fields) and the stock Logger's level-30 output are searched for the tokens in plain/hex/base64 form across all START combinations, ASCII/PAP flows, aborts, error paths and wrong-key connections.",
+         "stock logger at level 30 is a superset of levels 10/20", "3/C18"),
 }
 
 NA_REASON = "check not built yet in this round (work in progress; see DESIGN.md section 3 for the planned monitor)"
